@@ -353,7 +353,8 @@ std::string Preprocessor::expandMacros(const std::string &line) {
 
     // マクロを展開（複数回パス）
     bool changed = true;
-    int max_iterations = 100; // 無限ループ防止
+    // 無限ループ防止（1パスで各マクロを1箇所ずつ置換するため、行の長さに比例させる）
+    int max_iterations = 100 + static_cast<int>(line.length());
     int iterations = 0;
 
     while (changed && iterations < max_iterations) {
